@@ -16,21 +16,35 @@ func vTotal(name string, f func() error) {
 	}
 }
 
-//verif:harness prop=C07 quick=5 thorough=8 merge=concrete
-//verif:bounds every byte string of length 0..4 (quick) / 0..7 (thorough), all bytes fully symbolic (256 values each), as input to AsLocation, AsModifier, AsLocator (incl. Selector), AsMolecule, AsTopology
+//verif:harness prop=C07 quick=5 thorough=30 merge=concrete timeout=1500
+//verif:bounds every byte string of length 0..4 (quick) / 0..9 (thorough; lengths 6..9 one entry point per shard), all bytes fully symbolic (256 values each), as input to AsLocation, AsModifier, AsLocator (incl. Selector), AsMolecule, AsTopology
 //verif:assume regexp.Compile on a symbolic pattern succeeds or fails nondeterministically; MatchString is an uninterpreted predicate
 func VH_C07_gts_strings() {
 	n := 5
 	if vTier() == 1 {
-		n = 8
+		n = 30
 	}
-	k := vShard(n)
+	sh := vShard(n)
+	k, only := sh, -1
+	if sh >= 6 {
+		k, only = 6+(sh-6)/6, (sh-6)%6
+	}
 	s := string(vBytes("s", k))
-	vTotal("location", func() error { _, err := AsLocation(s); return err })
-	vTotal("modifier", func() error { _, err := AsModifier(s); return err })
-	vTotal("locator", func() error { _, err := AsLocator(s); return err })
-	vTotal("selector", func() error { _, err := Selector(s); return err })
-	vTotal("molecule", func() error { _, err := AsMolecule(s); return err })
-	vTotal("topology", func() error { _, err := AsTopology(s); return err })
+	fns := []struct {
+		name string
+		f    func() error
+	}{
+		{"location", func() error { _, err := AsLocation(s); return err }},
+		{"modifier", func() error { _, err := AsModifier(s); return err }},
+		{"locator", func() error { _, err := AsLocator(s); return err }},
+		{"selector", func() error { _, err := Selector(s); return err }},
+		{"molecule", func() error { _, err := AsMolecule(s); return err }},
+		{"topology", func() error { _, err := AsTopology(s); return err }},
+	}
+	for i, fn := range fns {
+		if only < 0 || only == i {
+			vTotal(fn.name, fn.f)
+		}
+	}
 	vObserve("k", k)
 }
